@@ -32,7 +32,7 @@ VARIABLES jst,      \* judge the state-dependent clauses in this segment
           nics,     \* set of [host, nic, kind, mac, resolve, offload]
           addrs,    \* set of [host, nic, addr]
           routes,   \* set of [host, rt]: rt = the route table (sequence)
-          neigh,    \* set of [host, nic, addr, mac]: every MAC the neighbour was resolved to
+          neigh,    \* set of [host, nic, addr, mac]: the MAC most recently learnt for the neighbour
           socks,    \* <<host, s>> -> [proto, bnic, laddr, lport, raddr, rport, conn]
           sent,     \* set of [host, s, addr, port]: explicit destinations of writes
           rxs,      \* set of received packet tuples (see RxTuple)
@@ -60,7 +60,8 @@ Routes == /\ IsEvent("routes")
           /\ routes' = {r \in routes : r.host # Ev.host} \cup {[host |-> Ev.host, rt |-> Ev.routes]}
           /\ UNCHANGED <<jst, nics, addrs, neigh, socks, sent, rxs, lastId>>
 Neigh == /\ IsEvent("neigh")
-         /\ neigh' = neigh \cup {[host |-> Ev.host, nic |-> Ev.nic, addr |-> Ev.addr, mac |-> Ev.mac]}
+         /\ neigh' = {x \in neigh : ~(x.host = Ev.host /\ x.nic = Ev.nic /\ x.addr = Ev.addr)}
+                      \cup {[host |-> Ev.host, nic |-> Ev.nic, addr |-> Ev.addr, mac |-> Ev.mac]}
          /\ UNCHANGED <<jst, nics, addrs, routes, socks, sent, rxs, lastId>>
 
 \* ------------------------------------------------------------------ sockets
@@ -127,18 +128,26 @@ Tuple(type, p) ==
   THEN LET h == DecIPv6(p) IN L4Tuple(6, h.src, h.dst, h.next, From(p, 40))
   ELSE Other
 
+(* Neighbour learning (P-level, RFC 826 / RFC 4861): the MOST RECENT claim for an address replaces
+   the earlier ones.  An ARP reply and a neighbour advertisement are always a claim; an ARP request /
+   neighbour solicitation only when it asks for one of this NIC's own addresses (then its sender is
+   learnt).  For NDP both the frame's source MAC and the link-layer address option count (they are
+   the same in every sane capture).                                                               *)
 Rx == /\ IsEvent("rx")
       /\ LET f == L3Of(Ev)
              t == IF f.ok THEN Tuple(f.type, f.p) ELSE Other
+             mine(a) == [host |-> Ev.host, nic |-> Ev.nic, addr |-> a] \in addrs
              learn == IF ~f.ok THEN {}
-                      ELSE IF t.kind = "arp" THEN {<<t.src, t.x[1]>>}
-                      ELSE IF t.kind \in {"ns", "na"} THEN
-                           {<<t.src, f.smac>>}
-                           \cup (IF t.kind = "ns" /\ t.x[2] # <<>> THEN {<<t.src, t.x[2]>>} ELSE {})
-                           \cup (IF t.kind = "na" THEN {<<t.x[1], f.smac>>} \cup (IF t.x[2] # <<>> THEN {<<t.x[1], t.x[2]>>} ELSE {}) ELSE {})
+                      ELSE IF t.kind = "arp" THEN (IF t.p1 = 2 \/ mine(t.dst) THEN {<<t.src, t.x[1]>>} ELSE {})
+                      ELSE IF t.kind = "ns" THEN
+                           (IF mine(t.x[1]) THEN {<<t.src, f.smac>>} \cup (IF t.x[2] # <<>> THEN {<<t.src, t.x[2]>>} ELSE {}) ELSE {})
+                      ELSE IF t.kind = "na" THEN
+                           {<<t.src, f.smac>>, <<t.x[1], f.smac>>} \cup (IF t.x[2] # <<>> THEN {<<t.x[1], t.x[2]>>} ELSE {})
                       ELSE {}
+             claims == {y \in learn : y[2] # <<>>}
          IN /\ rxs' = rxs \cup {[host |-> Ev.host, nic |-> Ev.nic, t |-> t]}
-            /\ neigh' = neigh \cup {[host |-> Ev.host, nic |-> Ev.nic, addr |-> x[1], mac |-> x[2]] : x \in {y \in learn : y[2] # <<>>}}
+            /\ neigh' = {x \in neigh : ~(x.host = Ev.host /\ x.nic = Ev.nic /\ \E y \in claims : y[1] = x.addr)}
+                         \cup {[host |-> Ev.host, nic |-> Ev.nic, addr |-> y[1], mac |-> y[2]] : y \in claims}
       /\ UNCHANGED <<jst, nics, addrs, routes, socks, sent, lastId>>
 
 \* ------------------------------------------------------------------ routing (P-level)
@@ -185,6 +194,9 @@ SrcByRoute(h, n, t) ==
   \/ \E b \in BoundNics(h, t) : LET i == FirstMatch(h, t.dst, b) IN i # 0 /\ TableOf(h)[i].nic = n /\ HasAddr(h, n, t.src)
   \/ Answers(h, n, t)
 
+\* address resolution is only ever done for a NEXT HOP: an address that a route entry reaches directly
+\* (no gateway) through this very NIC -- the gateway of an entry is such an address, an off-link destination is not
+IsNextHop(h, n, a) == \E b \in {0, n} : LET i == FirstMatch(h, a, b) IN i # 0 /\ TableOf(h)[i].gw = <<>> /\ TableOf(h)[i].nic = n
 MacsOf(h, n, a) == {x.mac : x \in {y \in neigh : y.host = h /\ y.nic = n /\ y.addr = a}}
 DstMacIP(h, n, t, dmac) ==
   IF t.v = 4 /\ t.dst = <<255, 255, 255, 255>> THEN dmac = BroadcastMac
@@ -195,6 +207,7 @@ ArpFailsSt(h, nc, t, dmac) ==
   IF t.p1 = 1
   THEN Chk(t.x[1] = nc.mac, "arp.sha") \cup Chk(HasAddr(h, nc.nic, t.src), "arp.spa")
        \cup Chk(~nc.resolve \/ dmac = BroadcastMac, "dstmac.arp.request")
+       \cup Chk(IsNextHop(h, nc.nic, t.dst), "dstmac.arp.nexthop")
   ELSE Chk(t.x[1] = nc.mac, "arp.sha") \cup Chk(HasAddr(h, nc.nic, t.src), "arp.spa")
        \cup Chk(\E r \in rxs : r.host = h /\ r.nic = nc.nic /\ r.t.kind = "arp" /\ r.t.p1 = 1
                                 /\ r.t.dst = t.src /\ r.t.src = t.dst /\ r.t.x[1] = t.x[2], "arp.reply.mirror")
@@ -203,6 +216,7 @@ NdFailsSt(h, nc, t) ==
   IF t.kind = "ns"
   THEN Chk(t.dst = SolicitedNode(t.x[1]) \/ t.dst = t.x[1], "nd.ns.dst")
        \cup Chk(t.x[2] = <<>> \/ (t.p2 = 1 /\ t.x[2] = nc.mac), "nd.ns.slla")
+       \cup Chk(IsNextHop(h, nc.nic, t.x[1]), "dstmac.ns.nexthop")
   ELSE Chk(HasAddr(h, nc.nic, t.x[1]) /\ t.src = t.x[1], "nd.na.target")
        \cup Chk(\E r \in rxs : r.host = h /\ r.nic = nc.nic /\ r.t.kind = "ns" /\ r.t.x[1] = t.x[1] /\ r.t.src = t.dst, "nd.na.mirror")
        \cup Chk(t.x[2] = <<>> \/ (t.p2 = 2 /\ t.x[2] = nc.mac), "nd.na.tlla")
